@@ -386,10 +386,8 @@ func AppendNumber(_ *RuntimeContext, b []byte, n json.Number) ([]byte, error) {
 	if len(n) == 0 {
 		return append(b, '0'), nil
 	}
-	for i := 0; i < len(n); i++ {
-		if !floatTable[n[i]] {
-			return nil, fmt.Errorf("json: invalid number literal %q", n)
-		}
+	if !validNumber([]byte(n)) {
+		return nil, fmt.Errorf("json: invalid number literal %q", n)
 	}
 	b = append(b, n...)
 	return b, nil
